@@ -1400,7 +1400,7 @@ class FileSet:
             FileInfo objects.
         """
         # We always want to have sorted files if we want to bundle them.
-        if sort or isinstance(bundle_size, int):
+        if sort or bundle_size is not None:
             # Sort the files by starting and ending time:
             file_iterator = sorted(
                 file_iterator, key=lambda x: (x.times[0], x.times[1])
